@@ -1406,6 +1406,21 @@ func ruleNSKIP(p *Program, r *Reporter) {
 				if h == nil {
 					continue
 				}
+				// the pass as a whole is not bypassed: every successful return of the
+				// function comes after the loop (it is dominated by the loop header)
+				for _, rb := range g.Blocks {
+					ret, isRet := rb.Instrs[len(rb.Instrs)-1].(*ssa.Return)
+					if !isRet || len(ret.Results) == 0 {
+						continue
+					}
+					if kc, isC := ret.Results[len(ret.Results)-1].(*ssa.Const); !isC || !kc.IsNil() {
+						continue
+					}
+					n++
+					after := h.Dominates(rb)
+					r.Ob(id, funcName(g), "successful return after the validation pass", ret.Pos(), after, true,
+						ifs(after, "this successful return is only reached through the substitution/validation loop", "ExpandNamedUUIDs can return successfully without running its substitution pass at all: the tables and condition columns of the operations are then never validated and later code dereferences their missing schema"))
+				}
 				for _, opv := range tableOps {
 					n++
 					skipped := false
@@ -1881,6 +1896,63 @@ func ruleKFRESH(p *Program, r *Reporter) {
 					case *ssa.UnOp:
 						byField[f] = append(byField[f], acc{u, false, false})
 					}
+				}
+			}
+		}
+		// a receiver that is itself a pointer to a map or slice (type Row map[...]): *r is the container
+		if pt, ok := recv.Type().Underlying().(*types.Pointer); ok {
+			switch pt.Elem().Underlying().(type) {
+			case *types.Map, *types.Slice:
+				var accs []acc
+				wrote := false
+				if refs := recv.Referrers(); refs != nil {
+					for _, ref := range *refs {
+						switch u := ref.(type) {
+						case *ssa.Store:
+							if u.Addr == ssa.Value(recv) {
+								fresh := false
+								switch v := u.Val.(type) {
+								case *ssa.MakeMap, *ssa.MakeSlice:
+									fresh = true
+								case *ssa.Const:
+									fresh = v.IsNil()
+								case *ssa.ChangeType:
+									switch v.X.(type) {
+									case *ssa.MakeMap, *ssa.MakeSlice:
+										fresh = true
+									}
+								}
+								accs = append(accs, acc{u, true, fresh})
+								wrote = true
+							}
+						case *ssa.UnOp:
+							if u.Op == token.MUL {
+								accs = append(accs, acc{u, false, false})
+							}
+						}
+					}
+				}
+				if wrote {
+					n++
+					ok := true
+					var pos token.Pos = fn.Pos()
+					for _, o := range accs {
+						if o.store && o.fresh {
+							continue
+						}
+						covered := false
+						for _, a := range accs {
+							if a.store && a.fresh && a.ins != o.ins && a.ins.Block().Dominates(o.ins.Block()) && (a.ins.Block() != o.ins.Block() || instrBefore(a.ins, o.ins)) {
+								covered = true
+							}
+						}
+						if !covered {
+							ok = false
+							pos = o.ins.Pos()
+						}
+					}
+					r.Ob(id, funcName(fn), "receiver container rebuilt from scratch", pos, ok, true,
+						ifs(ok, "every read of the destination container follows a store of a newly made one", "the decoder reads the destination's existing container before storing a new one: columns decoded earlier into the same variable survive into this value"))
 				}
 			}
 		}
